@@ -1,6 +1,5 @@
 PROP = dict(
     id="C04",
-    disabled=True,
     engines=["c04"],
     go_tags=["c04"],
     lean_modules=["MM.Props.C04"],
@@ -9,23 +8,25 @@ PROP = dict(
         "MM.C04.C04_payload_sealed",
         "MM.C04.C04_key_not_on_wire",
         "MM.C04.C04_transit_reads_nothing",
-        "MM.C04.C04_active_refuted_zero_key",
         "MM.C04.C04_active_refuted_mitm",
         "MM.C04.C04_active_partial",
-        "MM.C04.C04_fallback_kinds",
+        "MM.C04.C04_pinned_zero_key_downgrade",
+        "MM.C04.C04_fixed_zero_key_refused",
+        "MM.C04.C04_pinned_fallback_kinds",
     ],
     spec=True,
     chunk=200,
     timeout=600,
     rule="unit ops on the real code: SessionKey.Encrypt, udp.Association.Encrypt and icmp.Session.Encrypt with and without a session key on random payloads "
          "(0..40000 bytes), agent.deriveICMPSessionKey / deriveResponderSessionKey with an all-zero and an honest remote key; mesh ops: three real agents "
-         "in-process (SOCKS5 ingress - transit - exit, loopback QUIC) with a tap on every frame the transit receives, TCP (32 B..64 KiB, thorough 1 MiB) and "
-         "UDP (32..1400 B) random payloads echoed by local servers; output = echoed, number of tapped frames containing the payload, per direction the plain "
-         "byte count of the data frames (length - 28) and header prefix/counter sequence; all ops non-trivial",
+         "in-process (SOCKS5 ingress - transit - exit, loopback QUIC) with a tap on every frame the transit receives; tunnels: SOCKS5 CONNECT and configured port "
+         "forward (32 B..64 KiB, thorough 1 MiB), SOCKS5 UDP ASSOCIATE (32..1400 B), file upload+download (32 B..70 KB), remote shell echo; random payloads; "
+         "output = echoed, number of tapped frames containing the payload, per direction the plain byte count of the data frames (length - 28) and header "
+         "prefix/counter sequence; all ops non-trivial",
     trusted_base=[
         "symbolic secrecy: X25519/HKDF/ChaCha20-Poly1305 are ideal (a sealed term reveals nothing without its key) — assumed, partial by nature",
         "the tap (harness/exports/internal__agent/c04.go) wraps the transit's frame callback; it sees what processFrame sees",
-        "the mesh ops cover TCP (SOCKS5 CONNECT) and UDP (SOCKS5 UDP ASSOCIATE); port forward / ICMP / shell / file tunnels are covered by the model and C03's call-site table only",
+        "the mesh ops cover TCP, port forward, UDP, file transfer and shell tunnels; ICMP (needs raw-socket privileges) is covered by the unit ops, the model and C03's call-site table only",
     ],
     assumptions=[
         "honest ingress and exit; the transit relays open/ack frames unmodified (the active variant is refuted: see C04_active_refuted_*)",
@@ -34,10 +35,10 @@ PROP = dict(
         category="proof",
         text="Lean theorems over a symbolic model of all six tunnel kinds: behind a relaying transit every application chunk is sealed under the session key "
              "(C04_payload_sealed), no key material is ever a frame field for any transit behaviour (C04_key_not_on_wire), the transit reads no application atom "
-             "(C04_transit_reads_nothing); the active variant is machine-refuted (zero-key downgrade for UDP/ICMP, key substitution for all kinds) with "
-             "C04_active_partial as the true restriction; tied to the code by unit-level differential ops and a 3-agent in-process mesh with a transit tap",
+             "(C04_transit_reads_nothing); the active variant is machine-refuted by key substitution (ephemeral keys are unauthenticated) with C04_active_partial "
+             "(forward-or-zero tampering leaks nothing, all kinds) as the true restriction; the pinned zero-key plaintext downgrade of UDP/ICMP is repaired; tied to the code by unit-level differential ops and a 3-agent in-process mesh with a transit tap",
         design_ref="DESIGN.md section 5 C04",
-        note="symbolic model (computational secrecy assumed); mesh tap covers TCP and UDP tunnels only; active transit out of scope of the proved statement",
+        note="symbolic model (computational secrecy assumed); mesh tap covers tcp/forward/udp/file/shell tunnels, not ICMP; key-substituting transit out of scope of the proved statement",
         technique="Lean 4 proof (symbolic model) + differential correspondence harness (unit ops + in-process mesh tap)",
     ),
 )
